@@ -285,6 +285,7 @@ func (e *Engine) genClause(sf *synFile, c *Clause, paramText string) error {
 		return fmt.Errorf("%s:%d: %v", c.File, c.Line, err)
 	}
 	c.GoText = g
+	c.ParamText, c.TypeParams = paramText, e.curTypeParams
 	c.SynName = e.newSynName(c.Kind)
 	fmt.Fprintf(&sf.body, "//line %s:%d\nfunc %s%s(%s) bool { return %s }\n", c.File, c.Line, c.SynName, e.curTypeParams, paramText, g)
 	return nil
